@@ -54,3 +54,4 @@ LEVEL_NOTE = ("Trusted: Lean kernel; axioms propext/Classical.choice/Quot.sound 
               "IndexedInstruments, EngineState builder and ExecutionBuilder; harness and driver. Hypotheses WFAssets (asset internal name determines the asset within an exchange) "
               "and WFNames (instrument internal names unique) are needed only for the clauses listed; at the excluded points the code mis-resolves / collapses IndexMap entries "
               "(documented precondition, model and code agree there). Transmitter identity is not observed (only presence per slot).")
+SUBCHECKS = ["C11N"]
